@@ -28,6 +28,8 @@ type Scenario struct {
 	PVCs []string
 	// claims that exist in the API but have not reached the claim cache yet
 	PVCsApiOnly []string
+	// claims (of PVCs) that carry a deletion timestamp (deleted by hand while still in use, held by the protection finalizer)
+	PVCsTerminating []string
 	// what an uncached read of the set returns
 	FreshAbsent, FreshOtherUID, FreshDeleting bool
 	// set missing from the cache
@@ -64,7 +66,15 @@ func (w *World) Load(sc *Scenario) {
 		e.api.Put(RPods, w.BuildPod(set, p, sc.Set.NClaims))
 	}
 	for _, n := range sc.PVCs {
-		e.api.Put(RPVC, &v1.PersistentVolumeClaim{ObjectMeta: metav1.ObjectMeta{Name: n, Namespace: NS}})
+		c := &v1.PersistentVolumeClaim{ObjectMeta: metav1.ObjectMeta{Name: n, Namespace: NS}}
+		for _, t := range sc.PVCsTerminating {
+			if t == n {
+				now := metav1.Unix(950, 0)
+				c.DeletionTimestamp = &now
+				c.Finalizers = []string{"kubernetes.io/pvc-protection"}
+			}
+		}
+		e.api.Put(RPVC, c)
 	}
 	e.CacheSyncAll(false)
 	for _, n := range sc.PVCsApiOnly {
